@@ -23,7 +23,11 @@ XSD = (f'<xs:schema xmlns:xs="{cm.XS}" targetNamespace="{T}" xmlns:t="{T}" eleme
        '<xs:element name="em" type="xs:string" minOccurs="0"/></xs:sequence></xs:complexType></xs:element>'
        '<xs:any namespace="##other" processContents="strict" minOccurs="0" maxOccurs="2"/></xs:sequence>'
        '<xs:attribute name="id" type="xs:int" use="required"/><xs:attribute name="flag" type="xs:boolean"/>'
-       '<xs:attribute name="ref" type="xs:QName"/></xs:complexType>'
+       '<xs:attribute name="ref" type="xs:QName"/><xs:attribute name="uc" type="t:ucode"/>'
+       '<xs:attribute name="up" type="t:uplain"/></xs:complexType>'
+       '<xs:simpleType name="uplain"><xs:union memberTypes="xs:int xs:date"/></xs:simpleType>'
+       '<xs:simpleType name="ucode"><xs:restriction base="t:uplain"><xs:pattern value="[0-9]{3}|[0-9]{4}-[0-9]{2}-[0-9]{2}"/>'
+       '</xs:restriction></xs:simpleType>'
        # global declarations that share their names with the LOCAL note / qty but not their types: they govern
        # nothing inside lib (spec/Validator.tla: the governing declaration is the local one)
        '<xs:element name="note" type="xs:int"/><xs:element name="qty" type="xs:boolean"/>'
@@ -37,7 +41,7 @@ XSD11 = XSD.replace('maxOccurs="unbounded"/></xs:sequence></xs:complexType></xs:
 assert XSD11 != XSD
 
 TEXT = {"memo": {"ok": "draft", "bad": "final"}, "ext": {"ok": "e"}, "title": {"ok": "abc"}, "qty": {"ok": "5", "bad": "x"}, "note": {"ok": "n"}}
-ATTR = {"ref": {"ok": "x:known"}, "id": {"ok": "7", "bad": "x"}, "flag": {"ok": "true", "bad": "maybe"}, "bogus": {"ok": "1"}}
+ATTR = {"uc": {"ok": "123", "bad": "zzz"}, "up": {"ok": "5"}, "ref": {"ok": "x:known"}, "id": {"ok": "7", "bad": "x"}, "flag": {"ok": "true", "bad": "maybe"}, "bogus": {"ok": "1"}}
 
 
 def render(nodes, prefix="t", default_ns=False, root_attrs="", inner_default=False, decl_on_item=False):
